@@ -176,9 +176,35 @@ def oracle_program(case):
     return base[0]
 
 
+INSTR_ANNOTS = {"CAR": ["%f"], "CDR": ["%f"], "UNPAIR": ["%f", "%g"], "PAIR": ["%f", "%g"], "LEFT": ["%f", "%g"], "RIGHT": ["%f", "%g"],
+                "SOME": ["%f"], "GET": ["%f"], "UPDATE": ["%f"], "PUSH": ["@v"], "DUP": ["@v"], "NIL": ["@v"], "CONS": ["@v"]}
+
+
+@st.composite
+def sprinkle(draw, code):
+    """Annotations on INSTRUCTIONS (accessor field names, variable names): part of the program text, identical in every
+    variant; they never have to match the names written in types."""
+    def walk(e):
+        if isinstance(e, list):
+            return [walk(x) for x in e]
+        if not isinstance(e, dict) or "prim" not in e or _is_type(e):
+            return e
+        out = dict(e)
+        if e.get("args"):
+            out["args"] = [walk(a) if isinstance(a, list) else a for a in e["args"]]
+        opts = INSTR_ANNOTS.get(e["prim"])
+        if opts and "annots" not in e and draw(st.integers(0, 1 if e["prim"] in ("CAR", "CDR", "UNPAIR") else 3)) == 0:
+            names = draw(st.sampled_from([["%a"], ["%b"], ["%a", "%b"], ["@x"], ["%owner"], ["%"]]))
+            out["annots"] = names[:len(opts)] if opts[0].startswith("%") else ["@x"]
+        return out
+    return walk(code)
+
+
 @st.composite
 def program_cases(draw, size, depth):
     prog = draw(gp.programs(size=size, depth=depth, profile=draw(st.sampled_from(["combs", "combs", "core"])), keep_lambdas=True))
+    if draw(st.integers(0, 2)):
+        prog["code"] = draw(sprinkle(prog["code"]))
     names = gp.instr_names(prog["code"])
     # lambda code is data for PACK / FAILWITH / a lambda left on the stack: annotations written inside a lambda body are
     # legitimately visible there. Half of the cases leave lambda bodies untouched and then compare lambda values literally.
@@ -299,7 +325,7 @@ def replay(case):
 
 def run(h):
     size, depth = ((1, 7), 2) if h.quick else ((1, 16), 3)
-    h.run_given(lambda: program_cases(size, depth), _prop_program, h.n(50, 4000), shards=16, name="programs")
+    h.run_given(lambda: program_cases(size, depth), _prop_program, h.n(70, 4000), shards=16, name="programs")
     h.run_given(lambda: value_cases(2 if h.quick else 3), _prop_value, h.n(120, 8000), shards=16, name="values")
     h.coverage_extra["comb_instruction_histogram"] = {k[6:]: v for k, v in sorted(h.stats.extra.items())
                                                       if k.startswith("instr:")}
